@@ -854,7 +854,9 @@ def tostrSpecificBinding (o : Oracle Node) : List (Item Node) → Res Str
     | p => .ok (s3 ++ " => ".toList ++ p.text o)
   | _ => .raises .internalError
 
-/-- `Generic_Binding.match`; note `line[i + 3:]` (THREE characters for the two of `=>`) -/
+/-- `Generic_Binding.match` (since /repo 98a89ee: `Binding_Name_List(line[i + 2:].lstrip())`; before it was
+    `line[i + 3:]`, one character too many).  The text before `::` is looked at only when the line
+    starts with a comma: anything else there is ignored. -/
 def planGenericBinding (s : Str) : Res (List Slot) :=
   if !kwIs "GENERIC".toList s then .noMatch else
   let line := lstrip (s.drop 7)
@@ -866,7 +868,7 @@ def planGenericBinding (s : Str) : Res (List Slot) :=
     match cutSub2 '=' '>' line with
     | none => .ok (asl ++ [.fail])
     | some (l, r) =>
-      .ok (asl ++ [.child C.Generic_Spec (rstrip l), .child C.Binding_Name_List (lstrip (r.drop 1))])
+      .ok (asl ++ [.child C.Generic_Spec (rstrip l), .child C.Binding_Name_List (lstrip r)])
 
 def tostrGenericBinding (o : Oracle Node) : List (Item Node) → Res Str
   | [.none, g, l] => .ok ("GENERIC :: ".toList ++ g.text o ++ " => ".toList ++ l.text o)
